@@ -438,11 +438,12 @@ def run(chk):
         chk.sample({'text': s, 'evaluate': list(impl_evaluate(s)), 'type': impl_type(s)})
 
     # ---- numbers and None through quote (atoms) ---------------------------------------
-    atoms = [None, 0, 5, -3, 10 ** 30, 1.5, -0.0, 1e100, 1e-7, float('inf'), 12345678901234567890]
+    # equal-but-different numbers next to each other (0.0 / -0.0, 1 / 1.0 / 1.00): an answer cached by VALUE shows here
+    atoms = [None, 0, 0.0, -0.0, 0.0, 5, 5.0, -3, 10 ** 30, 1e30, 1.5, 1e100, 1e-7, float('inf'), float('-inf'), 12345678901234567890, 1, 1.0, -1, -1.0]
     out = common.run_driver('const', [[1, e_atom(a)] for a in atoms])
     chk.corr_cases += len(atoms)
     for a, o in zip(atoms, out):
-        chk.count(('atom', repr(a)))
+        chk.count(('atom', repr(a), type(a).__name__))
         q = constant.quote(a)
         case = {'atom': repr(a)}
         if a is None:
